@@ -176,6 +176,7 @@ def injected(t, unc=False):
         (S.build_hank, S.SSI_fast, S.SSI_poles, S.SSI_multi_setup, P.pLSCF, P.pLSCF_poles, F.SD_est, F.SD_PreGER) = saved
 
 
+WARM_UP = True
 POLE_CLASSES = ["SSIdat", "SSIcov", "SSIdat_MS", "SSIcov_MS", "pLSCF", "pLSCF_MS"]
 
 
@@ -199,6 +200,22 @@ def run_class(cls_name, t, *, ncols, hc, sc=None, ordmin=0, unc=False):
         alg._set_data(data, fs=10.0)
     with injected(t, unc):
         alg._pre_run()
+        if WARM_UP:
+            # history: the judged run is the third run of this object - after a run under the strictest hard criteria and a
+            # run under the requested hard criteria with other soft tolerances.  run() is specified as a function of the
+            # current parameters and data, so what earlier runs left behind (caches, tables blanked in place, "nothing
+            # changed" shortcuts) must not show in the judged result.
+            hc_req, sc_req = alg.run_params.hc, alg.run_params.sc
+            strict = dict(hc_req)
+            strict.update(conj=True, xi_max=1e-9, mpc_lim=1.0, mpd_lim=0.0)
+            if "cov_max" in strict:
+                strict["cov_max"] = 1e-12
+            alg.run_params.hc = strict
+            alg._set_result(alg.run())
+            alg.run_params.hc = hc_req
+            alg.run_params.sc = dict(err_fn=1e-12, err_xi=1e-12, err_phi=1e-12)
+            alg._set_result(alg.run())
+            alg.run_params.sc = sc_req
         res = alg.run()
     alg._set_result(res)
     return alg
